@@ -28,6 +28,24 @@ REGISTRY = {
         assumptions=TRUSTED,
     ),
 }
+REGISTRY["C08"] = dict(
+    module="c08",
+    level="other",
+    technique="static analysis: table extraction by straight-line abstract evaluation of the Lazy initialiser + sibling-table agreement; predicate-sensitive guard dominance over MIR for conversion sites",
+    claim=(
+        "Structural clauses: (a) all 82 entries of UNIT_CONVERSION_TABLE, extracted statically from the initialiser, equal the CSS ratios and the table is "
+        "reciprocal/transitive/closed; (b) Unit::kind, the table's row groups, comparable()'s decision structure (summarised per CFG path and evaluated over all 34x33 unit pairs), "
+        "KNOWN_COMPATIBILITIES and From<String>/Display agree; (c) every Number::convert / conversion_factor().unwrap() site is guarded on every path by comparable()/wrappers on the same pair; "
+        "(d) conversion direction and the unit-selection ladder of the four add/sub implementations; (e) visit_number rejects complex units. "
+        "Not decided: arithmetic results for sampled magnitudes, multiply_units cancellation algebra."
+    ),
+    explanation=(
+        "Clauses C08-a..e as in DESIGN.md §3 C08, decided on MIR facts of the current tree: the table initialiser is evaluated abstractly (no execution), "
+        "comparable() is summarised by CFG path conditions and evaluated over the finite unit domain, conversion sites are checked by a predicate-sensitive forward analysis. "
+        "NOT decided: numeric results of arithmetic, unit multiplication/cancellation."
+    ),
+    assumptions=TRUSTED + ["E3 spec table: CSS absolute unit ratios (css-values-4)"],
+)
 
 UNBUILT = "check not built yet in this session (design in DESIGN.md §3); not claimed until its rules run clean on the pinned tree"
 NOT_APPLICABLE = {
